@@ -160,7 +160,8 @@ fn c03_extra(case: &Case, history: &[Call], out: &RunOut) -> Result<(), (&'stati
     }
     // report(): FAILURE exactly when verify() fails
     #[cfg(feature = "std")]
-    {
+    for no_verify_first in [false, true] {
+        // (no_verify_in_drop() only disables the check at drop: an explicit report() still judges)
         let original = vh::spec::build_mock(&case.config);
         let clones: Vec<unimock::Unimock> = (0..history.iter().map(|c| c.via).max().unwrap_or(0))
             .map(|_| original.clone())
@@ -174,7 +175,7 @@ fn c03_extra(case: &Case, history: &[Call], out: &RunOut) -> Result<(), (&'stati
             let _ = observe_call(inst, c.m, c.x);
         }
         drop(clones);
-        let code = catch(move || original.report());
+        let code = catch(move || if no_verify_first { original.no_verify_in_drop().report() } else { original.report() });
         let failed = matches!(out.verdict, Some(Verdict::Failed(_)));
         match code {
             Ok(code) => {
@@ -182,7 +183,7 @@ fn c03_extra(case: &Case, history: &[Call], out: &RunOut) -> Result<(), (&'stati
                 if is_failure != failed {
                     return Err((
                         "verdict-report()",
-                        format!("report() returned {code:?} but verification by drop was {:?}", out.verdict),
+                        format!("report(){} returned {code:?} but verification by drop was {:?}", if no_verify_first { " after no_verify_in_drop()" } else { "" }, out.verdict),
                     ));
                 }
             }
